@@ -94,6 +94,9 @@ type mCall struct {
 
 type mIntrospect struct {
 	Names   []string `json:"names"`
+	Outputs []string `json:"outputs"` // OutputNames, in declaration order (checked when present)
+	Params  []string `json:"params"`  // ParamNames, as a set (checked when HasParams)
+	HasPar  bool     `json:"hasparams"`
 	DimSize []struct {
 		Name string `json:"name"`
 		Axis int    `json:"axis"`
@@ -129,6 +132,20 @@ func checkIntrospection(model *gonnx.Model, mc *mCase) []ModeResult {
 				if (d.Kind == "fixed") == sh[i].IsDynamic || (d.Kind == "fixed" && sh[i].Size != d.Size) {
 					return Observation{Kind: "nil", Note: fmt.Sprintf("InputShapes[%s][%d] = %+v, declared %+v", in.Name, i, sh[i], d)}
 				}
+			}
+		}
+		if mc.Introspect.Outputs != nil {
+			if got := model.OutputNames(); fmt.Sprint(got) != fmt.Sprint(mc.Introspect.Outputs) {
+				return Observation{Kind: "nil", Note: fmt.Sprintf("OutputNames %v, expected %v", got, mc.Introspect.Outputs)}
+			}
+		}
+		if mc.Introspect.HasPar {
+			got := append([]string{}, model.ParamNames()...)
+			want := append([]string{}, mc.Introspect.Params...)
+			sort.Strings(got)
+			sort.Strings(want)
+			if fmt.Sprint(got) != fmt.Sprint(want) {
+				return Observation{Kind: "nil", Note: fmt.Sprintf("ParamNames %v, expected %v", got, want)}
 			}
 		}
 		for _, q := range mc.Introspect.DimSize {
